@@ -10,7 +10,7 @@ import time
 from sim import core, pool as poolmod
 
 
-def build_pool(seed, tier, n_corpus=None, n_synth=None, n_ops=None, want_values=False):
+def build_pool(seed, tier, n_corpus=None, n_synth=None, n_ops=None, want_values=False, n_tabled=0):
     """Seeded sample of the corpus (stratified by file) plus synthetic messages, admitted."""
     rng = random.Random(core.derive_seed(seed, 'pool', 'sample', 0))
     corpus = poolmod.corpus_messages()
@@ -33,10 +33,13 @@ def build_pool(seed, tier, n_corpus=None, n_synth=None, n_ops=None, want_values=
     if n_ops is None:
         n_ops = max(10, n_synth // 3)
     synth += poolmod.operator_messages(core.derive_seed(seed, 'pool', 'ops', 0) % (1 << 31), n_ops)
+    if n_tabled:
+        synth += poolmod.table_d_messages(core.derive_seed(seed, 'pool', 'tabled', 0) % (1 << 31), n_tabled)
     admitted, rejected, mismatches = poolmod.admit_all(chosen + synth, want_values=want_values)
     info = {'corpus': sum(1 for e in admitted if e['src'] == 'corpus'),
             'synthetic': sum(1 for e in admitted if e['src'] == 'synth'),
             'operator_templates': sum(1 for e in admitted if e['src'] == 'operator'),
+            'table_d_sequences': sum(1 for e in admitted if e.get('opkind') == 'table-d-sequence'),
             'rejected': len(rejected), 'rejected_refs': [r['ref'] for r in rejected][:10],
             'pool_mismatch': mismatches[:10]}
     return admitted, info
@@ -44,8 +47,12 @@ def build_pool(seed, tier, n_corpus=None, n_synth=None, n_ops=None, want_values=
 
 def run_family(engine, engine_name, family, count, seed, pool, tier, limit=120):
     """-> list of (plan, status, trace)"""
-    plans = [engine.gen_plan(family, core.derive_seed(seed, engine_name, family, i), pool, tier)
-             for i in range(count)]
+    if family.endswith('-each'):
+        plans = [engine.gen_plan(family, core.derive_seed(seed, engine_name, family, i), pool, tier, index=i)
+                 for i in range(count)]
+    else:
+        plans = [engine.gen_plan(family, core.derive_seed(seed, engine_name, family, i), pool, tier)
+                 for i in range(count)]
     res = core.pmap(engine_name, plans, limit=limit)
     return [(p, st, tr) for p, (st, tr) in zip(plans, res)]
 
@@ -130,6 +137,9 @@ def check_main(prop, tier, engine, engine_name, families, level, rule, assumptio
         engine_name_f = famspec[3] if len(famspec) > 3 else engine_name
         engine = engine_module(engine_name_f)
         n = qn if tier == 'quick' else tn
+        if n < 0:
+            n = len(pool)           # one run per pool message
+        n = int(n * float(os.environ.get('VERIF_SCALE', '1')))      # experiments only
         if not n:
             continue
         t1 = time.time()
